@@ -42,7 +42,7 @@ RULE = ("random force fields (1-3 blocks of 1-4 atoms in .ff or polyply .itp syn
         "trees, one ring; 1-7 residues quick, up to 10 thorough; mixed resnames; labelled edges; resids along the "
         "graph or permuted; shuffled node insertion); a case is non-trivial when at least one link application is "
         "accepted; distinct = distinct abstract case")
-WITHHELD_SHAPES = ("removed-atom-key-equals-version",)
+WITHHELD_SHAPES = ("removed-atom-key-equals-version", "link-without-resname-skipped")
 
 
 # ------------------------------------------------------------------------------------------ real pipeline
@@ -93,8 +93,12 @@ def judge_main(ctx, case, inp, impl, apply_ans, spec_ans, known_shapes, stream="
     impl_ix = {(i[0], tuple(i[1]), i[2]): (i[3], i[4]) for i in impl["ixns"]}
     spec_ix = {(i[0], tuple(i[1]), i[2]): (i[3], i[4]) for i in spec["ixns"]}
     failures = []
+    no_resname = any(not any(k == "resname" for atom in link["atoms"] for k, _t in atom["attrs"]) for link in inp["links"])
     for key in sorted(set(spec_ix) - set(impl_ix)):
-        if removed and key[2] in removed and not any(a in removed for a in key[1]):
+        if no_resname:
+            failures.append(("link-without-resname-skipped", "interaction %s %s is required by a matching link none of whose "
+                             "atoms names a residue; the code never considers such a link" % (key[0], list(key[1]))))
+        elif removed and key[2] in removed and not any(a in removed for a in key[1]):
             failures.append(("removed-atom-key-equals-version",
                              "interaction %s %s (version %d) is missing although none of its atoms was removed: a link "
                              "removed the atom with node key %d, which equals the version number" % (key[0], list(key[1]), key[2], key[2])))
@@ -108,13 +112,15 @@ def judge_main(ctx, case, inp, impl, apply_ans, spec_ans, known_shapes, stream="
         if impl_ix[key] != spec_ix[key]:
             failures.append(("wrong-parameters", "interaction %s %s version %d carries %s, the last matching definition says %s"
                              % (key[0], list(key[1]), key[2], impl_ix[key], spec_ix[key])))
-    if impl["edges"] != spec["edges"]:
+    if no_resname and (impl["edges"] != spec["edges"] or impl["atoms"] != spec["atoms"]):
+        failures.append(("link-without-resname-skipped", "edges / attributes of a matching link without residue names are missing"))
+    elif impl["edges"] != spec["edges"]:
         extra = [e for e in impl["edges"] if e not in spec["edges"]]
         missing = [e for e in spec["edges"] if e not in impl["edges"]]
         failures.append(("edge-mismatch", "bond edges differ from those of block + matching links: extra %s missing %s" % (extra, missing)))
     a_impl = drop_resid(impl["atoms"]) if removed else impl["atoms"]
     a_spec = drop_resid(spec["atoms"]) if removed else spec["atoms"]
-    if a_impl != a_spec:
+    if a_impl != a_spec and not no_resname:
         diff = [(x, y) for x, y in zip(a_impl, a_spec) if x != y][:3]
         failures.append(("attribute-mismatch", "atom attributes differ from block attributes + replacements of matching "
                          "links (atoms present: %d, expected %d): %s" % (len(a_impl), len(a_spec), diff)))
@@ -363,14 +369,15 @@ def run(ctx):
     run_match_order(ctx)
     rng = ctx.rng
     cases = corpus_cases() + small_exhaustive_cases()
-    count = ctx.budget(170, 3000)
+    count = ctx.budget(500, 6000)
     max_res = ctx.budget(7, 10)
     for _ in range(count):
-        cases.append(G.gen_case(rng, max_res=max_res))
+        cases.append(G.gen_case(rng, max_res=max_res,
+                                allow_no_resname=("link-without-resname-skipped" in known and rng.random() < 0.2)))
     # in chunks, so that a driver request stays small
     for start in range(0, len(cases), 400):
         run_main(ctx, cases[start:start + 400], known)
-    run_dangling(ctx, ctx.budget(30, 400))
+    run_dangling(ctx, ctx.budget(60, 600))
 
 
 def replay(ctx, data):
